@@ -1,7 +1,7 @@
 """C04 — see DESIGN.md section 6/C04. Model M1 (lean/JoblibModel/ParallelProto.lean), theorems lean/JoblibProofs/C04.lean,
 deterministic scenarios through harness/ctl.py, oracles in harness/m1.py."""
 
-from .. import m1
+from .. import m1, native_pool
 
 REQUIRED_THEOREMS = [
     "C04.error_surfaces",
@@ -98,7 +98,10 @@ FOCUSES = (None, 'fail', 'timeout')
 
 
 def run(ctx):
-    return m1.run_prop(ctx, "C04", FOCUSES)
+    if native_pool.is_replay(ctx):
+        return native_pool.replay(ctx, "C04")
+    res = m1.run_prop(ctx, "C04", FOCUSES)
+    return res if ctx.replay else native_pool.probe(ctx, res, "C04")
 
 
 def search(ctx, res):
